@@ -149,6 +149,8 @@ fn main() {
                                 "body_truncated" => { let mut v = 200u32.to_le_bytes().to_vec(); v.extend([1u8, 2, 3]); v }
                                 "body_empty" => vec![],
                                 "body_wrong_message" => frame(&[0x2a, 5, 0x08, 0, 0x10, 0x01, 0x2a, 0]),
+                                // well-formed request with extreme content: field 1 = 2^64-1 as a varint (a block number for get_block), then nothing
+                                "body_extreme" => frame(&[0x08, 0xff, 0xff, 0xff, 0xff, 0xff, 0xff, 0xff, 0xff, 0xff, 0x01]),
                                 _ => { let n = rng.gen_range(1..200); let junk: Vec<u8> = (0..n).map(|_| rng.gen()).collect(); frame(&junk) }
                             };
                             let sctx = ctx.with_timeout(time::Duration::milliseconds(250));
